@@ -889,7 +889,12 @@ class Compiler:
                 self._emit(OpCode.CATCH)
                 # Store exception in catch variable
                 name = node.handler.param.name
-                self._emit_store_variable(name)
+                if self._in_function:
+                    self._emit_store_variable(name)
+                else:
+                    # Program level: a global, like every other program variable,
+                    # so that functions created in the catch block see it
+                    self._emit(OpCode.STORE_NAME, self._add_name(name))
                 self._emit(OpCode.POP)
                 if node.finalizer:
                     # The catch block is protected as well: when it throws, the
